@@ -54,8 +54,11 @@ func newBasicAuth(cfg config.BasicAuth) (AuthScheme, error) {
 				}
 
 				// refresh the htpasswd file only if its modification time has changed
-				// even if the new htpasswd file is older than previously loaded
-				if cfg.ModTime != stat.ModTime() {
+				// even if the new htpasswd file is older than previously loaded.
+				// After the credentials have been cleared the file is loaded in any
+				// case: it may have been put back with the modification time it had
+				// (moved away and back, restored with cp -p).
+				if cleared || cfg.ModTime != stat.ModTime() {
 					if err := secrets.Reload(bad); err == nil {
 						log.Println("[INFO] The htpasswd file has been successfully reloaded")
 						cfg.ModTime = stat.ModTime()
